@@ -873,13 +873,19 @@ impl Formula {
 
                 let term_variables = term.variables();
                 let formula_variables = formula.free_variables();
+                let block_variables = quantification.variables.clone();
 
                 for variable in quantification.variables {
                     if term_variables.contains(&variable) {
+                        // a fresh name must differ from the substituted variable, from the
+                        // other variables of this block and from the names already chosen
                         let fresh_variable = Variable::sequence(&variable)
                             .find(|candidate| {
                                 !term_variables.contains(candidate)
                                     && !formula_variables.contains(candidate)
+                                    && !block_variables.contains(candidate)
+                                    && !variables.contains(candidate)
+                                    && *candidate != var
                             })
                             .unwrap();
 
